@@ -108,6 +108,9 @@ impl Default for ExecuteOptions {
 struct ExecutionRuntimeState {
     started_at: Option<Instant>,
     emitted_rows: usize,
+    /// First error raised where it could not be returned (expression evaluation yields a
+    /// `Value`); reported by the runtime guard of the enclosing plan node.
+    failure: Option<Error>,
 }
 
 #[derive(Debug, Default)]
@@ -170,6 +173,28 @@ impl Params {
         if let Ok(mut state) = self.runtime.state.lock() {
             state.started_at = Some(Instant::now());
             state.emitted_rows = 0;
+            state.failure = None;
+        }
+    }
+
+    /// Records an error raised inside expression evaluation (which can only yield a `Value`),
+    /// so that it is reported instead of being lost. The first recorded error wins.
+    pub(crate) fn record_failure(&self, err: Error) {
+        if let Ok(mut state) = self.runtime.state.lock()
+            && state.failure.is_none()
+        {
+            state.failure = Some(err);
+        }
+    }
+
+    /// Returns (and clears) the error recorded by [`Params::record_failure`], if any.
+    pub(crate) fn take_failure(&self) -> Result<()> {
+        match self.runtime.state.lock() {
+            Ok(mut state) => match state.failure.take() {
+                Some(err) => Err(err),
+                None => Ok(()),
+            },
+            Err(_) => Ok(()),
         }
     }
 
